@@ -1,0 +1,42 @@
+//go:build verif
+
+// Contracts for package ds, checked by /verif (govc). Ghost functions and
+// comments only.
+package ds
+
+func forall(lo, hi int, f func(int) bool) bool {
+	for i := lo; i < hi; i++ {
+		if !f(i) {
+			return false
+		}
+	}
+	return true
+}
+
+// ---- Set: insertion-ordered set. Representation invariant: the map holds
+// exactly the elements of the list and the list has no duplicates.
+
+//@ func Set.Has
+//@   property C19 C18
+//@   modifies nothing
+//@   ensures result == has(s.m, v)
+
+//@ func Set.Size
+//@   property C19 C18
+//@   modifies nothing
+//@   ensures s == nil ==> result == 0
+//@   ensures s != nil ==> result == len(s.l)
+
+//@ func Set.Slice
+//@   property C19 C18
+//@   inline
+//@   modifies nothing
+//@   ensures same(result, s.l)
+
+//@ func Set.All
+//@   property C19 C18
+//@   modifies nothing
+//@   ensures s == nil ==> seqlen(result) == 0
+//@   ensures s != nil ==> seqlen(result) == len(s.l) && forall(0, len(s.l), func(j int) bool { return seqat(result, j) == s.l[j] })
+//@   loop 0:
+//@     invariant len(out_) == idx_ && forall(0, idx_, func(j int) bool { return out_[j] == s.l[j] })
